@@ -78,7 +78,9 @@ def IF(
     """
     # Use delayed evaluation to only evaluate the true or false value but not
     # both.
-    return value_if_true() if logical_test() else value_if_false()
+    value = value_if_true if logical_test() else value_if_false
+    # The defaults are plain values, not expressions.
+    return value() if isinstance(value, func_xltypes.Expr) else value
 
 
 @xl.register()
